@@ -4,8 +4,7 @@ import json, os, random
 import vlib, dlvlib, scripts as S
 
 
-def hx(b):
-    return (b.encode() if isinstance(b, str) else b).hex()
+hx = S.hx
 
 
 def model_checks(chk):
@@ -100,17 +99,17 @@ def envelope_scripts(chk, maxpayload, maxprefix):
         scen += 1
         wire = prefix + [b""] + payload
         ops = [{"op": "attach", "c": 1, "ptype": "DEALER"}, {"op": "attach", "c": 2, "ptype": "REQ"},
-               {"op": "psend", "c": 1, "m": [f.hex() for f in wire], "cuts": [1, 3] if k % 3 == 0 else []},
+               {"op": "psend", "c": 1, "m": [S.hx(f) for f in wire], "cuts": [1, 3] if k % 3 == 0 else []},
                {"op": "recv"}, {"op": "quiescent"}, {"op": "recv_drop"},
-               {"op": "send", "m": [f.hex() for f in (payload or [b"r"])]},
+               {"op": "send", "m": [S.hx(f) for f in (payload or [b"r"])]},
                {"op": "psend", "c": 2, "m": [b"".hex(), b"after".hex()]}, {"op": "recv"}, {"op": "send", "m": [b"ok".hex()]}]
         out.append({"scen": scen, "sock": "REP", "ops": ops, "tag": "envelope"})
         # REQ: only non-empty payloads can be sent; the reply carries the same payload shape back
         if payload:
             scen += 1
             ops = [{"op": "attach", "c": 1, "ptype": "ROUTER" if prefix else "REP"},
-                   {"op": "send", "m": [f.hex() for f in payload]},
-                   {"op": "preply", "m": [b"".hex()] + [f.hex() for f in payload], "cuts": [1] if k % 2 else []},
+                   {"op": "send", "m": [S.hx(f) for f in payload]},
+                   {"op": "preply", "m": [b"".hex()] + [S.hx(f) for f in payload], "cuts": [1] if k % 2 else []},
                    {"op": "recv"}, {"op": "quiescent"}, {"op": "recv_drop"}]
             out.append({"scen": scen, "sock": "REQ", "ops": ops, "tag": "envelope"})
     return out
@@ -139,11 +138,11 @@ def random_rep_scripts(rng, n, base):
                 pre = [("hop%d.%d" % (c, j)).encode() for j in range(rng.randint(0, 2))]
                 pay = S.message(rng, "c%dq%d" % (c, nq[c]), "PULL", nmax=3)
                 m = pre + [b""] + pay
-                ops.append({"op": "psend", "c": c, "m": [f.hex() for f in m], "cuts": S.cuts(rng, m)})
+                ops.append({"op": "psend", "c": c, "m": [S.hx(f) for f in m], "cuts": S.cuts(rng, m)})
                 outstanding[c] = True
             elif x < 0.7:
                 if pending_reply and rng.random() < 0.8:
-                    ops.append({"op": "send", "m": [f.hex() for f in S.message(rng, "rep%d" % len(ops), "PULL", nmax=3)]}); pending_reply = False
+                    ops.append({"op": "send", "m": [S.hx(f) for f in S.message(rng, "rep%d" % len(ops), "PULL", nmax=3)]}); pending_reply = False
                     for c in outstanding: outstanding[c] = False     # conservative: any client may now ask again
                 else:
                     ops.append({"op": "recv"}); pending_reply = True
